@@ -245,6 +245,22 @@ class OffsetKDTransform(_KDTransform):
         return ("KD", self.offset, x)
 
 
+class FaultyHookTransform(_KDTransform):
+    """a deterministic transform whose per-worker initialisation needs a resource (a lookup file on node-local storage, say)
+    that is missing on some workers: its hook raises there.  Applied to a sample it is the identity."""
+
+    def __init__(self, fail_ranks=None):
+        super().__init__()
+        self.fail_ranks = fail_ranks  # None: every worker
+
+    def _worker_init_fn(self, rank, num_workers=None, **kwargs):
+        if self.fail_ranks is None or rank in self.fail_ranks:
+            raise InjectedReadError(2, f"injected: resource of FaultyHookTransform missing on worker {rank}")
+
+    def __call__(self, x, ctx=None):
+        return x
+
+
 from kappadata.datasets.kd_wrapper import KDWrapper as _KDWrapper
 
 
